@@ -46,6 +46,9 @@ type Case struct {
 	// CloseErr: the stream's Close reports an error (the connection was already
 	// torn down underneath): handlers must be closed all the same
 	CloseErr bool `json:"close_err,omitempty"`
+	// LazyClose: closing the stream does not wake the endpoint's pending Read
+	// (pipe:// and user supplied streams behave so)
+	LazyClose bool `json:"lazy_close,omitempty"`
 	// WritesFail: whatever the endpoint writes fails, while it still reads
 	// (the peer stopped reading): it matters when the endpoint answers by
 	// itself, as it does to a call it cannot queue
@@ -81,6 +84,7 @@ func genSequential(t *rapid.T) Case {
 	n := rapid.IntRange(3, 40).Draw(t, "n")
 	var c Case
 	c.CloseErr = rapid.IntRange(0, 3).Draw(t, "closeerr") == 0
+	c.LazyClose = rapid.IntRange(0, 3).Draw(t, "lazyclose") == 0
 	c.WritesFail = rapid.IntRange(0, 3).Draw(t, "writesfail") == 0
 	for i := 0; i < n; i++ {
 		op := genOp(t, i > 8)
@@ -111,6 +115,7 @@ func genConcurrent(t *rapid.T) Case {
 	c.CloseAt = rapid.IntRange(0, 40).Draw(t, "closeat")
 	c.ByPeer = rapid.Bool().Draw(t, "bypeer")
 	c.CloseErr = rapid.IntRange(0, 3).Draw(t, "closeerr") == 0
+	c.LazyClose = rapid.IntRange(0, 3).Draw(t, "lazyclose") == 0
 	return c
 }
 
@@ -299,6 +304,8 @@ func checkSequential(c Case) (err error) {
 	s := hio.NewScriptStream(nil)
 	s.CloseErr = c.CloseErr
 	s.WritesFail = c.WritesFail
+	s.LazyClose = c.LazyClose
+	defer s.Release()
 	e := qnet.NewEndPoint(s)
 	var hs []*handler
 	live := map[int]*handler{} // model: id -> handler
@@ -488,6 +495,8 @@ func checkConcurrent(c Case) (err error) {
 	s := hio.NewScriptStream(nil)
 	s.YieldEvery = 3
 	s.CloseErr = c.CloseErr
+	s.LazyClose = c.LazyClose
+	defer s.Release()
 	e := qnet.NewEndPoint(s)
 	var mu sync.Mutex
 	var all []*handler
